@@ -118,19 +118,30 @@ func newStoreModel(c *Ctx) (*storeModel, string) {
 				return nil, "more than one radius-limited pebble store type found"
 			}
 			m.typ, m.typName, m.radFld = nt, nt.Obj().Name(), rad
-			for i := 0; i < st.NumFields(); i++ {
-				f := st.Field(i)
+			classify := func(f *types.Var, display string) {
 				qt := core.QualTypeName(f.Type())
 				switch {
 				case qt == "sync/atomic.Uint64":
-					m.sizeFld = core.FieldDisplayName(nt, f)
+					m.sizeFld = display
 				case qt == "sync.Mutex" || qt == "sync.RWMutex":
-					m.mutexes = append(m.mutexes, core.FieldDisplayName(nt, f))
+					m.mutexes = append(m.mutexes, display)
 				case qt == "github.com/ethereum/go-ethereum/p2p/enode.ID":
-					m.idFld = core.FieldDisplayName(nt, f)
+					m.idFld = display
 				default:
-					if b, ok := f.Type().Underlying().(*types.Basic); ok && b.Kind() == types.Uint64 && strings.Contains(strings.ToLower(f.Name()), "capacity") {
-						m.capField = core.FieldDisplayName(nt, f)
+					if b, ok := f.Type().Underlying().(*types.Basic); ok && b.Kind() == types.Uint64 && strings.Contains(strings.ToLower(f.Name()+display), "capacity") {
+						m.capField = display
+					}
+				}
+			}
+			for i := 0; i < st.NumFields(); i++ {
+				f := st.Field(i)
+				classify(f, core.FieldDisplayName(nt, f))
+				// fields moved into a sub-struct held by value are known under their old names
+				if sub, ok := f.Type().Underlying().(*types.Struct); ok {
+					for j := 0; j < sub.NumFields(); j++ {
+						if old, ok := core.NestedFieldAlias(nt, f.Name(), sub.Field(j).Name()); ok {
+							classify(sub.Field(j), old)
+						}
 					}
 				}
 			}
@@ -188,7 +199,7 @@ func newStoreModel(c *Ctx) (*storeModel, string) {
 	})
 	// key derivation: the module function whose result is the key of db.Get in Get
 	for _, ci := range core.CallsTo(m.get, pebbleGet) {
-		if call, ok := ci.Common().Args[1].(*ssa.Call); ok {
+		if call, ok := core.Unwrap(ci.Common().Args[1]).(*ssa.Call); ok {
 			if f := core.StaticCalleeFn(call); f != nil && core.InModule(f) {
 				m.keyFn = f
 			}
